@@ -25,26 +25,8 @@ type clientEntries struct {
 // Cache entry tracking client time values of tickets sent to the service.
 type replayCacheEntry struct {
 	presentedTime time.Time
-	sName         types.PrincipalName
-	cTime         time.Time // This combines the ticket's CTime and Cusec
-}
-
-func (c *Cache) getClientEntries(cname types.PrincipalName) (clientEntries, bool) {
-	c.mux.RLock()
-	defer c.mux.RUnlock()
-	ce, ok := c.entries[cname.PrincipalNameString()]
-	return ce, ok
-}
-
-func (c *Cache) getClientEntry(cname types.PrincipalName, t time.Time) (replayCacheEntry, bool) {
-	if ce, ok := c.getClientEntries(cname); ok {
-		c.mux.RLock()
-		defer c.mux.RUnlock()
-		if e, ok := ce.replayMap[t]; ok {
-			return e, true
-		}
-	}
-	return replayCacheEntry{}, false
+	sNames        []types.PrincipalName // Every service this authenticator has been presented to
+	cTime         time.Time             // This combines the ticket's CTime and Cusec
 }
 
 // Instance of the ServiceCache. This needs to be a singleton.
@@ -71,32 +53,29 @@ func GetReplayCache(d time.Duration) *Cache {
 
 // AddEntry adds an entry to the Cache.
 func (c *Cache) AddEntry(sname types.PrincipalName, a types.Authenticator) {
+	c.mux.Lock()
+	defer c.mux.Unlock()
+	c.addEntry(sname, a)
+}
+
+// addEntry records that the authenticator has been presented to the service. The caller must hold
+// the write lock.
+func (c *Cache) addEntry(sname types.PrincipalName, a types.Authenticator) {
 	ct := a.CTime.Add(time.Duration(a.Cusec) * time.Microsecond)
-	if ce, ok := c.getClientEntries(a.CName); ok {
-		c.mux.Lock()
-		defer c.mux.Unlock()
-		ce.replayMap[ct] = replayCacheEntry{
-			presentedTime: time.Now().UTC(),
-			sName:         sname,
-			cTime:         ct,
-		}
-		ce.seqNumber = a.SeqNumber
-		ce.subKey = a.SubKey
-	} else {
-		c.mux.Lock()
-		defer c.mux.Unlock()
-		c.entries[a.CName.PrincipalNameString()] = clientEntries{
-			replayMap: map[time.Time]replayCacheEntry{
-				ct: {
-					presentedTime: time.Now().UTC(),
-					sName:         sname,
-					cTime:         ct,
-				},
-			},
-			seqNumber: a.SeqNumber,
-			subKey:    a.SubKey,
+	ce, ok := c.entries[a.CName.PrincipalNameString()]
+	if !ok {
+		ce = clientEntries{
+			replayMap: make(map[time.Time]replayCacheEntry),
 		}
 	}
+	e := ce.replayMap[ct]
+	e.presentedTime = time.Now().UTC()
+	e.sNames = append(e.sNames, sname)
+	e.cTime = ct
+	ce.replayMap[ct] = e
+	ce.seqNumber = a.SeqNumber
+	ce.subKey = a.SubKey
+	c.entries[a.CName.PrincipalNameString()] = ce
 }
 
 // ClearOldEntries clears entries from the Cache that are older than the duration provided.
@@ -105,7 +84,9 @@ func (c *Cache) ClearOldEntries(d time.Duration) {
 	defer c.mux.Unlock()
 	for ke, ce := range c.entries {
 		for k, e := range ce.replayMap {
-			if time.Now().UTC().Sub(e.presentedTime) > d {
+			// An authenticator stays acceptable until its own timestamp leaves the clock skew
+			// window, so that is how long it has to be remembered.
+			if time.Now().UTC().Sub(e.cTime) > d {
 				delete(ce.replayMap, k)
 			}
 		}
@@ -116,13 +97,21 @@ func (c *Cache) ClearOldEntries(d time.Duration) {
 }
 
 // IsReplay tests if the Authenticator provided is a replay within the duration defined. If this is not a replay add the entry to the cache for tracking.
+// The check and the insert happen under one write lock so that concurrent presentations of the same
+// authenticator cannot both be accepted.
 func (c *Cache) IsReplay(sname types.PrincipalName, a types.Authenticator) bool {
 	ct := a.CTime.Add(time.Duration(a.Cusec) * time.Microsecond)
-	if e, ok := c.getClientEntry(a.CName, ct); ok {
-		if e.sName.Equal(sname) {
-			return true
+	c.mux.Lock()
+	defer c.mux.Unlock()
+	if ce, ok := c.entries[a.CName.PrincipalNameString()]; ok {
+		if e, ok := ce.replayMap[ct]; ok {
+			for _, s := range e.sNames {
+				if s.Equal(sname) {
+					return true
+				}
+			}
 		}
 	}
-	c.AddEntry(sname, a)
+	c.addEntry(sname, a)
 	return false
 }
